@@ -302,6 +302,24 @@ def _pp_result(raw, exc, extra, a, b, n, lsb0, so, sep, nc, array):
     return "ok " + " ".join(items)
 
 
+FILE_NAMES = {"n": "data.bin", "q": "it's.bin", "d": 'say "x".bin', "b": "back\\slash.bin", "s": "two words.bin",
+              "m": "a 'b' \"c\" \\d.bin"}
+
+
+def _reprf_fields(f):
+    """(name code, length|None, offset) of a reprf line; the short form is the whole file under a plain name."""
+    code = f[6] if len(f) > 6 else "n"
+    length = None if len(f) <= 7 or f[7] == "-" else int(f[7])
+    offset = int(f[8]) if len(f) > 8 else 0
+    return code, length, offset
+
+
+def _reprf_window(f):
+    bits = unwire(f[3])
+    _c, length, offset = _reprf_fields(f)
+    return bits[offset:] if length is None else bits[offset:offset + length]
+
+
 def model_line(line):
     """The model driver reads Array.pp cases with the dtype resolved (item size; fmt None = the dtype's token);
     the value-printing Array.pp cases have no model (constant answer)."""
@@ -312,6 +330,13 @@ def model_line(line):
         return SEP.join(["C19", "app", str(size), f[3], t1, f[5]] + f[6:])
     if f[1] == "appx":
         return SEP.join(["C19", "arrx", f[2], f[3]])
+    if f[1] == "reprf" and len(f) > 6:
+        # the model sees the bits the object holds; with an offset the library reads into memory (no file name kept)
+        _c, _l, offset = _reprf_fields(f)
+        w = wire(_reprf_window(f))
+        if offset:
+            return SEP.join(["C19", "repr", f[2], w, f[5], "0"])
+        return SEP.join(["C19", "reprf", f[2], w, f[4], f[5]])
     return line
 
 
@@ -349,10 +374,16 @@ def execute(line):
         cls, bits, mut, pos = f[2], unwire(f[3]), f[4], int(f[5])
         d = tempfile.mkdtemp(prefix="verif-C19-")
         try:
-            path = os.path.join(d, "data.bin")
+            code, length, offset = _reprf_fields(f)
+            path = os.path.join(d, FILE_NAMES[code])
             with open(path, "wb") as fh:
                 fh.write(int(bits, 2).to_bytes(len(bits) // 8, "big") if bits else b"")
-            s = CLASSES[cls](filename=path)
+            kw = {}
+            if length is not None:
+                kw["length"] = length
+            if offset:
+                kw["offset"] = offset
+            s = CLASSES[cls](filename=path, **kw)
             if mut == "invert0":
                 s.invert(0)
             elif mut == "append1":
@@ -561,6 +592,7 @@ def oracle(line, out, extra):
         cls, bits, mut, pos = f[2], unwire(f[3]), f[4], int(f[5])
         if not out.startswith("ok ["):
             return "repr() did not succeed: " + out
+        bits = _reprf_window(f)
         cur = {"none": bits, "invert0": ("1" if bits[:1] == "0" else "0") + bits[1:] if bits else "",
                "append1": bits + "1", "del8": bits[8:], "overwrite8": "1" * min(8, len(bits)) + bits[8:]}[mut]
         if extra["cur"] != wire(cur):
@@ -840,6 +872,13 @@ def gen(rng, tier):
             if cls in MUTABLE and nbytes:
                 for mut in ("invert0", "append1", "del8", "overwrite8"):
                     yield SEP.join(["C19", "reprf", cls, wire(bits), mut, "0"])
+    # file names that need quoting (single quote, double quote, backslash, blank), with and without length / offset
+    for code in ("q", "d", "b", "s", "m", "n"):
+        for cls in CLASS_NAMES:
+            for (nbytes, length, offset) in ((4, None, 0), (4, 20, 0), (6, None, 8), (6, 17, 3), (130, None, 0)):
+                bits = rand_bits(rng, nbytes * 8)
+                p = 0 if cls in ("Bits", "BitArray") else rng.choice([0, 1, 5])
+                yield SEP.join(["C19", "reprf", cls, wire(bits), "none", str(p), code, "-" if length is None else str(length), str(offset)])
     # ------------------------------------------------------------------ literal parser
     hexd, octd, bind = "0123456789abcdefABCDEF", "01234567", "01"
 
